@@ -833,11 +833,11 @@ static SpellTable make_spelling(Choice& ch)
 {
     // per terminal a menu; several entries are proper prefixes of entries of other terminals ("<" / "<=", "b" / "be", "i" / "if")
     static const std::vector<std::vector<Spelling>> menu = {
-        {{'c', "a", "a"}, {'s', "al", "al"}, {'r', "a[0-9]+", "anum"}, {'t', "a", "a"}},
+        {{'c', "a", "a"}, {'s', "al", "al"}, {'r', "a[0-9]+", "anum"}, {'T', "a[0-9]+", "number"}},
         {{'c', "b", "b"}, {'s', "be", "be"}, {'s', "b", "b"}, {'R', "b[0-9]+", "r_b[0-9]+"}},
         {{'c', "c", "c"}, {'s', "<=", "<="}, {'s', "if", "if"}, {'t', "c", "c"}},
         {{'c', "d", "d"}, {'s', "<", "<"}, {'s', "i", "i"}, {'r', "d[0-9]+", "dnum"}},
-        {{'c', "e", "e"}, {'s', "end", "end"}, {'c', ";", ";"}, {'s', "en", "en"}},
+        {{'c', "e", "e"}, {'s', "end", "end"}, {'c', "\x01", "\\x01"}, {'s', "en", "en"}},
         {{'c', "f", "f"}, {'s', "==", "=="}, {'c', "=", "="}, {'t', "f", "f"}}};
     SpellTable t;
     for (size_t i = 0; i < 6; ++i) t.sp.push_back(menu[i][ch.below(4)]);
@@ -845,8 +845,9 @@ static SpellTable make_spelling(Choice& ch)
     for (size_t i = 0; i < 6; ++i) for (size_t j = 0; j < i; ++j)
     {
         bool clash = t.sp[i].text == t.sp[j].text;
-        if ((t.sp[i].kind == 'r' || t.sp[i].kind == 'R') && t.sp[j].text[0] == t.sp[i].text[0]) clash = true;
-        if ((t.sp[j].kind == 'r' || t.sp[j].kind == 'R') && t.sp[j].text[0] == t.sp[i].text[0]) clash = true;
+        auto isrx = [](char k) { return k == 'r' || k == 'R' || k == 'T'; };
+        if (isrx(t.sp[i].kind) && t.sp[j].text[0] == t.sp[i].text[0]) clash = true;
+        if (isrx(t.sp[j].kind) && t.sp[j].text[0] == t.sp[i].text[0]) clash = true;
         if (clash) t.sp[i] = menu[i][0];
     }
     for (int i = 0; i < 6; ++i) t.decl_order.push_back(i);
@@ -855,7 +856,7 @@ static SpellTable make_spelling(Choice& ch)
 }
 static bool spell_match(const Spelling& s, const std::string& text, size_t p, size_t& len)
 {
-    if (s.kind == 'r' || s.kind == 'R')
+    if (s.kind == 'r' || s.kind == 'R' || s.kind == 'T')
     {
         if (p >= text.size() || text[p] != s.text[0]) return false;
         size_t q = p + 1; while (q < text.size() && text[q] >= '0' && text[q] <= '9') ++q;
@@ -892,7 +893,7 @@ static std::string render_spelled(const SpellTable& t, const std::vector<ref::To
     for (auto& tk : toks)
     {
         const Spelling& sp = t.sp[size_t(tk.term)];
-        if (sp.kind == 'r' || sp.kind == 'R') { s += sp.text[0]; int nd = 1 + int(rng.below(3)); for (int k = 0; k < nd; ++k) s += char('0' + rng.below(10)); }
+        if (sp.kind == 'r' || sp.kind == 'R' || sp.kind == 'T') { s += sp.text[0]; int nd = 1 + int(rng.below(3)); for (int k = 0; k < nd; ++k) s += char('0' + rng.below(10)); }
         else s += sp.text;
         s += seps[rng.below(6)];
     }
@@ -911,6 +912,7 @@ static int emit_cases(const eng::Args& a)
         if (cases.size() >= want) return;
         Choice ch(bytes);
         int cls = int(ch.weighted({5, 3, 3}));      // 0 conflict-free, 1 precedence (S/R), 2 recovery
+        if (const char* only = getenv("EMIT_ONLY_CLASS")) cls = atoi(only);
         GCase c; c.tmpl = 0;
         c.g = gg::gen_grammar(ch, cls == 0 ? gg::CONFLICT_FREE : cls == 1 ? gg::PRECEDENCE : gg::RECOVERY, c.strategy, tpl::t36_slots());
         Grammar& g = c.g;
@@ -924,7 +926,7 @@ static int emit_cases(const eng::Args& a)
         if (cls == 0 && !pr.table.conflict_free()) return;
         if (cls == 1 && (!pr.table.has_sr || g.uses_error())) return;
         if (cls == 2 && !g.uses_error()) return;
-        if (per_class[cls] * 2 > want + 2) return;
+        if (per_class[cls] * 2 > want + 2 && !getenv("EMIT_ONLY_CLASS")) return;
         { int reach = 0; for (int n = 0; n < g.nN; ++n) if (pr.an.reachable[size_t(n)]) ++reach; if (reach < 2 && !pr.an.left_rec && !pr.an.right_rec) return; }
         if (!seen.insert(g.hash()).second) return;
         eng::Rng rng = ch.fork();
